@@ -1,9 +1,11 @@
 """Deterministic fork-based parallel map: the covered set never depends on the worker count."""
 
+import concurrent.futures as cf
 import multiprocessing as mp
 import os
 
 _FN = None
+_ITEMS = None
 
 
 def _call(i):
@@ -11,7 +13,8 @@ def _call(i):
 
 
 def pmap(fn, items, procs=None):
-    """ordered map over items in forked workers (fn and items are inherited through fork, nothing is pickled in)."""
+    """ordered map over items in forked, NON-daemonic workers (fn and items are inherited through fork, nothing is
+    pickled in; workers may start child processes of their own, e.g. a real dask `processes` pool)."""
     global _FN, _ITEMS
     items = list(items)
     if procs is None:
@@ -19,8 +22,7 @@ def pmap(fn, items, procs=None):
     if procs <= 1 or len(items) <= 1:
         return [fn(x) for x in items]
     _FN, _ITEMS = fn, items
-    ctx = mp.get_context("fork")
-    with ctx.Pool(procs) as pool:
-        res = pool.map(_call, range(len(items)), chunksize=1)
+    with cf.ProcessPoolExecutor(max_workers=procs, mp_context=mp.get_context("fork")) as pool:
+        res = list(pool.map(_call, range(len(items)), chunksize=1))
     res.sort(key=lambda t: t[0])
     return [r for _, r in res]
